@@ -155,7 +155,18 @@ var bodyFiles = map[string]*facts.BodyFile{
 	// C03: driver/netconf/message.go
 	"BodiesRequest.lean": {
 		Namespace: "Scrapli.Gen.Bodies.Request",
+		Imports:   []string{"ScrapliModel.Netconf.Request"},
 		Fns: []*facts.FnSpec{
+			{Dir: "driver/netconf", Name: "ForceSelfClosingTags", Lean: "forceSelfClosingTags",
+				Doc: "`findAllSub b` = `emptyTags.FindAllSubmatch(b, -1)` (full match and the three groups of every match); " +
+					"`bytes.ReplaceAll` is the model's `Req.replaceAll` (non-empty `old`).",
+				Binders: "(findAllSub : Bytes → List (List Bytes))", BinderArgs: "findAllSub",
+				Vals:    map[string]facts.Val{"getNetconfPatterns()": {Lean: "()", Ty: "unit"}},
+				Funcs: map[string]facts.LibFn{
+					"ncPatterns.emptyTags.FindAllSubmatch": {Args: []string{"bytes", "int"}, Ret: []string{"list2"}, Tmpl: "(findAllSub %0)"},
+					"bytes.ReplaceAll": {Args: []string{"bytes", "bytes", "bytes"}, Ret: []string{"bytes"},
+						Tmpl: "(Netconf.Req.replaceAll %1 %2 (List.length %0) %0)"},
+				}},
 			{Dir: "driver/netconf", Recv: "message", Name: "serialize", Lean: "serialize",
 				Doc: "`body` = the result of `xml.Marshal(m)` (taken to succeed), `selfCloseF` = `ForceSelfClosingTags`; " +
 					"state: the two fields of the returned `*serializedInput` (the pointer itself is `()`).",
